@@ -1,7 +1,7 @@
 (* ColorBase.v — table facts, hex-digit lemmas and the complete channel sweeps for C08. *)
 From Coq Require Import String.
 From Coq Require Import List Ascii Bool NArith ZArith QArith Lia.
-Require Import Model.Text Model.ParamTypes Model.Num Gen.Params Model.Color Spec.ColorSpec.
+Require Import Model.Text Model.ParamTypes Model.Num Gen.PColor Model.Color Spec.ColorSpec.
 Import ListNotations.
 Local Open Scope char_scope.
 
